@@ -141,36 +141,27 @@ func (rm *RegistrationManager) ingestRegistration(reg *DecoyRegistration) {
 		return
 	}
 
+	// Check for and track the registration in one critical section. If the check and the tracking
+	// are separate steps two workers handling the same registration can both treat it as new (it
+	// is then shared twice and can be validated before its covert address was checked), and a
+	// duplicate racing with the expiry sweeper can leave a registration that is never validated.
 	verifhook.Yield("ingest.exists", reg)
-	if rm.RegistrationExists(reg) {
-		// log phantom IP, shared secret, ipv6 support
-		logger.Debugf("Duplicate registration: %v %s\n", reg.IDString(), reg.RegistrationSource)
-		Stat().AddDupReg()
-		rm.AddDupReg()
-
-		// Track the received registration, if it is already tracked
-		// it will just update the record
-		verifhook.Yield("ingest.duptrack", reg)
-		err := rm.TrackRegistration(reg)
-		if err != nil {
-			logger.Errorln("error tracking registration: ", err)
-			Stat().AddErrReg()
-			rm.AddErrReg()
-		}
-		return
-	}
-
-	// log phantom IP, shared secret, ipv6 support
-	logger.Debugf("New registration: %s %v\n", reg.IDString(), reg.String())
-
-	// Track the received registration
-	verifhook.Yield("ingest.track", reg)
-	err := rm.TrackRegistration(reg)
+	exists, err := rm.TrackRegIfNotExists(reg)
 	if err != nil {
 		logger.Errorln("error tracking registration: ", err)
 		Stat().AddErrReg()
 		rm.AddErrReg()
 	}
+	if exists {
+		// log phantom IP, shared secret, ipv6 support
+		logger.Debugf("Duplicate registration: %v %s\n", reg.IDString(), reg.RegistrationSource)
+		Stat().AddDupReg()
+		rm.AddDupReg()
+		return
+	}
+
+	// log phantom IP, shared secret, ipv6 support
+	logger.Debugf("New registration: %s %v\n", reg.IDString(), reg.String())
 
 	// If registration is trying to connect to a covert address that
 	// is blocklisted consider registration INVALID and continue
